@@ -22,6 +22,31 @@ pub struct Scripted {
     pub in_span: bool,
     /// model: enter_on_poll local span with this name around each poll
     pub eop: Option<String>,
+    /// spans created during polls and held by this object (as a future holds a span across an
+    /// await); finished by its destructor
+    pub held: Vec<usize>,
+}
+
+impl Drop for Scripted {
+    fn drop(&mut self) {
+        if self.held.is_empty() {
+            return;
+        }
+        let p = ACTIVE.with(|a| a.get());
+        if p.is_null() {
+            return; // outside the interpreter: the spans stay with the world (reaper)
+        }
+        let cx: &mut VtCtx = unsafe { &mut *p };
+        cx.case.w().h.label("inner_owned_span_dropped");
+        let a = self.adapter;
+        for i in std::mem::take(&mut self.held) {
+            let live = matches!(cx.case.w().spans[i], Slot::Live(_));
+            if live {
+                cx.finish_idx(i);
+                cx.case.w().h.adapters[a].held_finished.push(i);
+            }
+        }
+    }
 }
 
 fn sel(i: u16, len: usize) -> usize {
@@ -94,6 +119,7 @@ impl Scripted {
             let ps = self.script[self.pos].clone();
             self.pos += 1;
             cx.run_mini(&ps.acts, Some((a, pi)));
+            self.held.append(&mut cx.kept_in_poll);
             ps.end
         } else {
             cx.case.w().h.adapters[a].polls[pi].past_end = true;
@@ -321,6 +347,7 @@ pub fn wrap(cx: &mut VtCtx, kind: AdapterKind, span_sel: u16, s: StrSeed, script
         pos: 0,
         in_span,
         eop,
+        held: vec![],
     };
     let obj = match kind {
         AdapterKind::InSpan => AdapterObj::Fut(Box::pin(ScriptedFuture(mk(true, None)).in_span(span.take().unwrap()))),
@@ -352,6 +379,7 @@ pub fn wrap(cx: &mut VtCtx, kind: AdapterKind, span_sel: u16, s: StrSeed, script
         done_t: None,
         dropped_t: None,
         create_vt: vt,
+        held_finished: vec![],
     });
     if let Some(i) = span_idx {
         w.h.spans[i].in_adapter = Some(a);
@@ -556,7 +584,10 @@ pub fn drop_adapter_idx(cx: &mut VtCtx, a: usize) {
     };
     let t0 = cx.case.w().tick();
     let b0 = cx_now(cx);
+    // the inner object's destructor may finish spans it holds: it runs inside the interpreter
+    let prev = ACTIVE.with(|p| p.replace(cx as *mut VtCtx));
     let r = std::panic::catch_unwind(std::panic::AssertUnwindSafe(|| drop(obj)));
+    ACTIVE.with(|p| p.set(prev));
     let b1 = cx_now(cx);
     let mut w = cx.case.w();
     let t1 = w.tick();
